@@ -164,9 +164,9 @@ INFO = {
         "rulefn": _field_rule,
         "trusted": ["maximality of the order is not re-verified here (C06); the oracle checks that B is a ring basis with first vector 1 containing Z[theta] and that its structure constants are T",
                     "Ideal has no accessor for its HNF: the harness reads it from the derived Debug output and re-validates each extraction with HNF::new(rows) == rows"],
-        "gaps": ["norm multiplicativity is a theorem under the hypothesis that the ring defined by the table is a Dedekind domain / integrally closed (what 'maximal order' provides; kernel-checked counterexample in Z[sqrt(-3)] shows it cannot be dropped) — that the Round 2 output's table is integrally closed is not proved (C06); I * I^-1 = (d) for the inverse routine is not a theorem: both certified on every explored case by Spec.Ideal (exact lattice computations, spec-side products)"],
+        "gaps": ["I * I^-1 = (d) for the inverse routine is not a theorem (certified on every explored case by Spec.Ideal: exact lattice computations, spec-side products); norm multiplicativity holds for Dedekind tables — proved unconditionally for the table of the order computed by find_integral_basis with irreducible f (norm_multiplicative_maximal_order), and shown false for non-maximal orders (Z[sqrt(-3)])"],
         "assumptions": ["ideals of a maximal order given by HNF bases relative to an integral basis whose first vector is 1"],
-        "level_text": "Theorems about the Lean model of ideal.rs and get_inv_diff for every multiplication table of the right shape (ring axioms of the table where stated, as the decidable predicate TableRing): sum = smallest lattice containing both; product = lattice spanned by all pairwise products (never an error); product commutative, associative, distributive over sum as equalities of the returned HNFs; principal ideals, sums, products of O-ideals are O-ideals; `contains` <=> membership; cap_z = positive generator of I meet Z; norm = lattice index = |O/I| = Mathlib's Ideal.absNorm of the corresponding ideal of the ring built from the table; norm of a principal ideal = |norm of the generator| (generator of non-zero norm); norm multiplicative for Dedekind tables (Z[i] instance proved Dedekind); inverse different: get_inv_diff returns (d, H) exactly when the trace matrix is non-singular, with d^n = norm(H) * |disc| where disc = det(trace matrix) = the order's discriminant (any f, any order basis), and H = d * (dual lattice under the trace form). Model tied to the code by differential testing; each output decided by an independent oracle.",
+        "level_text": "Theorems about the Lean model of ideal.rs and get_inv_diff for every multiplication table of the right shape (ring axioms of the table where stated, as the decidable predicate TableRing): sum = smallest lattice containing both; product = lattice spanned by all pairwise products (never an error); product commutative, associative, distributive over sum as equalities of the returned HNFs; principal ideals, sums, products of O-ideals are O-ideals; `contains` <=> membership; cap_z = positive generator of I meet Z; norm = lattice index = |O/I| = Mathlib's Ideal.absNorm of the corresponding ideal of the ring built from the table; norm of a principal ideal = |norm of the generator| (generator of non-zero norm); norm multiplicative for Dedekind tables, and for the table of every order returned by find_integral_basis with irreducible f (such a table is a domain, integrally closed and Dedekind: proved from C06's maximality theorem); inverse different: get_inv_diff returns (d, H) exactly when the trace matrix is non-singular, with d^n = norm(H) * |disc| where disc = det(trace matrix) = the order's discriminant (any f, any order basis), and H = d * (dual lattice under the trace form). Model tied to the code by differential testing; each output decided by an independent oracle.",
         "level_note": "Trusted: Lean kernel + 3 standard axioms; correspondence coverage. Partial: ring-theoretic clauses are certified per explored case, not proved.",
     },
     "C17": {
@@ -174,9 +174,9 @@ INFO = {
         "rule": "decompose on the fields of C16 (incl. fields with non-trivial index so that primes dividing the index occur and must be refused) for all primes <= 60 (thorough 200) and three primes beyond 2^64; ramified, inert, split and mixed types; random history of factorize_mod_p captured and replayed; the CLI (to_find = prime-decomposition) as a process. Non-trivial: matrix arguments of dimension >= 2.",
         "rulefn": _field_rule,
         "trusted": ["hooked RNG + Lean draw decoder", "primality of p beyond 2^64 from a fixed list; irreducibility over such p by Rabin's test alone"],
-        "gaps": ["the product clause prod P_i^e_i = (p) holds for maximal (integrally closed) orders, for unramified p, or under Dedekind's criterion — it is FALSE for a non-maximal order with p not dividing the index (kernel-checked counterexample x^2+4, p = 2), so maximality is a hypothesis of that clause ('maximal order' is part of the property's statement); that the Round 2 output's table is integrally closed in Mathlib's sense is linked only through C06's maximality theorem, not yet as an instance; totality of decompose (no panic on legal input) is not a theorem"],
+        "gaps": ["the product clause prod P_i^e_i = (p) is FALSE for a non-maximal order with p not dividing the index (kernel-checked counterexample x^2+4, p = 2): it is proved for integrally closed tables, unramified p, under Dedekind's criterion, and — unconditionally — for the order computed by find_integral_basis (kummer_dedekind_maximal_order); termination is probabilistic (no_panic: the only non-answer is an exhausted stream)"],
         "assumptions": ["monic irreducible f, maximal order, p prime"],
-        "level_text": "Theorems about the Lean model of prime_decomp/simple.rs for every monic f, order O containing Z[theta] with 1 as first basis vector, prime p not dividing the index, every stream of draws, runs that return: O/pO is isomorphic to F_p[x]/(f mod p) (ring isomorphism constructed); each P_i = (p, g_i(theta)) has norm p^(deg g_i), P_i meet Z = pZ (cap_z = p), is proper, PRIME and MAXIMAL; the P_i are pairwise comaximal and distinct; exponents are those of the (fully verified) modular factorisation and sum e_i f_i = n; prod P_i^e_i is contained in (p), with equality iff p lies in every P_i^e_i, and equality is PROVED for integrally closed tables, for unramified p and under Dedekind's criterion (the model's iterated `mul` returns the HNF of pO); the routine refuses when p divides the index. Model tied to the code by replaying the captured random history; outputs decided by an independent oracle; CLI cases.",
+        "level_text": "Theorems about the Lean model of prime_decomp/simple.rs for every monic f, order O containing Z[theta] with 1 as first basis vector, prime p not dividing the index, every stream of draws, runs that return: O/pO is isomorphic to F_p[x]/(f mod p) (ring isomorphism constructed); each P_i = (p, g_i(theta)) has norm p^(deg g_i), P_i meet Z = pZ (cap_z = p), is proper, PRIME and MAXIMAL; the P_i are pairwise comaximal and distinct; exponents are those of the (fully verified) modular factorisation and sum e_i f_i = n; prod P_i^e_i is contained in (p), with equality iff p lies in every P_i^e_i, and equality is PROVED for integrally closed tables, for unramified p and under Dedekind's criterion (the model's iterated `mul` returns the HNF of pO); the routine refuses when p divides the index; for O = the output of find_integral_basis (f monic irreducible) the whole Kummer-Dedekind statement holds with no further hypothesis (the table of a maximal order is integrally closed: proved from C06); no Rust panic is reachable on legal input. Model tied to the code by replaying the captured random history; outputs decided by an independent oracle; CLI cases.",
         "level_note": "Trusted: Lean kernel + 3 standard axioms; RNG hook/decoder; correspondence coverage. Partial: Kummer-Dedekind is certified per explored case, not proved.",
     },
     "C07": {
@@ -184,7 +184,7 @@ INFO = {
         "rule": "all integer polynomials with <= 5 coefficients in a small range; products of 1..4 factors irreducible by construction (Eisenstein, irreducible modulo a prime, cyclotomic, Swinnerton-Dyer type x^4+1, x^4-10x^2+1, degree 8 and 16) with multiplicities up to 12 (>= 7 included), contents, negative and non-monic leading coefficients, large coefficients, x^n - 1, zero and constants, 25 and 26 linear factors (recombination limit); the random history of factorize_mod_p inside is captured and replayed into the model; CLI (to_find = factorization, polynomials) as a process. Non-trivial: degree >= 2.",
         "rulefn": _c07_rule,
         "trusted": ["hooked RNG + Lean draw decoder", "irreducibility certificates of the oracle: degree 1; irreducible modulo a prime (Rabin test / brute force); incompatible factor-degree sets modulo several primes; brute-force divisor search for small cases; otherwise the construction-time expectation supplied by the harness (191 of 5093 quick cases)"],
-        "gaps": ["termination of the prime search and of the modular factoriser (random splitting) is not a theorem: the theorems are about runs that return, for every stream of draws; the degree limit 25 of the recombination (an assertion in the code) is outside the theorems' scope only in the sense that such runs do not return"],
+        "gaps": ["termination: for deg a <= 25 (the routine's recombination limit) no Rust panic is reachable and the only non-answers are 'stream ran out' and exhaustion of the model's prime-search fuel (100000 primes; the Rust loop has no bound) — theorem no_panic / fuel_only_prime_search; that a random stream suffices with probability 1 is not formalised"],
         "assumptions": ["squarefree part of degree <= 25 modular factors (the implementation asserts lifted.len() <= 25; beyond that the oracle skips)"],
         "level_text": "Full theorems about the Lean model of poly_z/mod.rs (Berlekamp-Zassenhaus) for every non-zero canonical a and EVERY stream of draws, for runs that return (c, fs): every returned factor is irreducible in Z[x] and over Q, canonical, non-constant, primitive with positive leading coefficient; the factors are pairwise distinct and coprime; every exponent is >= 1 and is the true multiplicity; c is the signed content; c * prod f^e = a EXACTLY; and the factorisation is complete (every irreducible divisor of positive degree is associated to exactly one returned factor). Proved via: the Landau-Mignotte bound (Mathlib's Mahler measure) instantiated for the routine's coefficient bound, uniqueness of Hensel lifting (subsets of lifted factors <-> divisors), the recombination loop invariant (subsets of increasing size, symmetric residues), the prime search (a genuine prime < 2^31 not dividing lc with a squarefree mod p), the fully verified modular factoriser (C08) and lifting (C11), and the unconditional integer gcd (C10). Zero and constants. Model tied to the code by replaying the captured random history; outputs also decided by an independent oracle; CLI cases.",
         "level_note": "Trusted: Lean kernel + 3 standard axioms; Mathlib (Mahler measure, Gauss lemma, UFD); RNG hook/decoder; correspondence coverage.",
@@ -214,7 +214,7 @@ INFO = {
         "rule": "primitives of prim.rs (divrem, gcd, modpow, ext-gcd witness, x-a division, evaluation) on random and edge inputs; find_linear_factors on every polynomial up to a degree bound over F_2..F_13, random f of degree <= 12 over primes up to 2^61 (and beyond 2^64) built as c*prod (x-r_i)^e_i * g with g root-free by construction; scripted histories where the drawn shift is a root and where draws never split; the random history of every run is replayed into the model. Non-trivial: polynomial of degree >= 2; distinct = distinct (op,args incl. history).",
         "rulefn": _pm_rule,
         "trusted": _PM_TRUST,
-        "gaps": ["termination (that a long enough random stream ends the recursion) is probabilistic and not addressed: the theorems are about runs that return, for every stream"],
+        "gaps": ["termination is probabilistic: the only possible non-answer on legal input is 'the stream of draws ran out' (theorem no_panic: the Fermat debug assertion, the synthetic-division assertion and all fuels are unreachable; p = 2 is total)"],
         "assumptions": ["p prime, f mod p non-zero"],
         "level_text": "Theorems for every prime p, every f with f mod p non-zero and EVERY stream of random draws, about the Lean model of linear.rs and prim.rs (the stream is an explicit argument): if find_linear_factors returns res then every value is in [0,p), every value is a root and prod (x - r) divides f mod p, and the multiset of res equals Mathlib's Polynomial.roots of f over ZMod p (with multiplicity); hence empty when f has no root, of length deg when f splits, and two histories give permutations of one another; p = 2 branch included; poly_gcd is a greatest common divisor. Model tied to the code by replaying the captured random history of every run; each implementation output also decided by an independent oracle.",
         "level_note": "Trusted: Lean kernel + 3 standard axioms; RNG hook/decoder; correspondence coverage. Partial: the root multiset statement is certified per explored case, not proved.",
@@ -233,7 +233,7 @@ INFO = {
         "rule": "factorize_mod_p on every polynomial up to a degree bound over F_2, F_3, F_5, F_7, random degree <= 16 over primes up to 2^61 and beyond 2^64 (pusize in {0, 7, p mod 2^64} on the same captured history), p-th powers, products of equal-degree irreducibles, leading coefficient divisible by p; primitives of prim.rs. Non-trivial: polynomial of degree >= 2.",
         "rulefn": _pm_rule,
         "trusted": _PM_TRUST,
-        "gaps": ["the theorems are about runs that return a factor list, for every stream of draws: termination of the random splitting is probabilistic, and the unreachability of the internal panics on legal input is not a theorem (every explored run returned)"],
+        "gaps": ["termination is probabilistic: for every legal input the ONLY possible non-answer of the model is 'the stream of random draws ran out' (theorem no_panic: no Rust panic is reachable and the fuel always suffices, p = 2 included); that a random stream is long enough with probability 1 is not formalised"],
         "assumptions": ["p prime, f mod p non-zero; for p < 2^64 callers pass pusize = p"],
         "level_text": "Theorems for every prime p, every f in Z[x], every value of the machine-word copy allowed by the property (pusize = p when p < 2^64; arbitrary otherwise) and EVERY stream of random draws, about the Lean model of factorize_mod_p.rs and prim.rs: if factorize_mod_p returns fs then every g is monic, canonical, with coefficients in [0,p), of degree >= 1, irreducible over ZMod p (Mathlib Irreducible; distinct-degree stage via the finite-field lemma natDegree_dvd_iff_dvd_X_pow_card_pow_sub_X), the g pairwise distinct, every e >= 1, and lc(f mod p) * prod g^e = f mod p; constant input gives the empty list; for p >= 2^64 the result is the same for every pusize; stage theorems for squarefree decomposition (with p-th roots), distinct-degree and equal-degree splitting. Model tied to the code by replaying the captured random history of every run (whole routine and each private stage through feature-guarded wrappers); outputs also decided by an independent oracle (Rabin test cross-checked by brute force).",
         "level_note": "Trusted: Lean kernel + 3 standard axioms; RNG hook/decoder; correspondence coverage. Partial: see gaps.",
